@@ -301,3 +301,28 @@ example : versionGet exSplit exB 9 = .found [7] ∧ getCharge exSplit exB 9 = no
 end Examples
 
 end Rain.Seek
+
+/-! ### the seek budget of a new file -/
+
+/-- **a new table file never starts as a seek-compaction candidate**: its budget is positive, so
+the first charge of a file cannot record it (with the regenerated constants; a minimum of 0 in
+`set_file_size` breaks this obligation) -/
+theorem C09_initial_allowed_positive (size : Nat) : 0 < Rain.Seek.initialAllowed size := by
+  unfold Rain.Seek.initialAllowed
+  simp only []
+  split
+  · decide
+  · rename_i h
+    have : ((Rain.Gen.MIN_ALLOWED_SEEKS : Nat) : Int) > 0 := by decide
+    omega
+
+/-- the budget is the quotient, floored at the minimum -/
+theorem C09_initial_allowed_ge_min (size : Nat) :
+    (Rain.Gen.MIN_ALLOWED_SEEKS : Int) ≤ Rain.Seek.initialAllowed size ∧
+    ((size / Rain.Gen.SEEK_DATA_SIZE_THRESHOLD : Nat) : Int) ≤ Rain.Seek.initialAllowed size := by
+  unfold Rain.Seek.initialAllowed
+  simp only []
+  split <;> omega
+
+example : Rain.Seek.initialAllowed 0 = 100 ∧ Rain.Seek.initialAllowed (200 * 16384 + 5) = 200 := by
+  decide
